@@ -92,15 +92,23 @@ fn original_map(t: &mut Tape, lines: usize, source: &str) -> (Value, serde_json:
     let mut line_of = serde_json::Map::new();
     let stretch = 1 + t.below(3) as u32;
     let offset = t.below(7) as u32;
+    // a bundle: the second half of the lines comes from a second source
+    let two = t.flag();
+    let second = format!("{}.part2.ts", source.trim_end_matches(".ts"));
+    let mut source_of = serde_json::Map::new();
     for l in 0..lines as u32 {
         let ol = l * stretch + offset;
-        segs.push(Seg { gen_line: l, gen_col: 0, src: Some((0, ol, 0, None)) });
+        let si = if two && l as usize >= lines / 2 { 1 } else { 0 };
+        segs.push(Seg { gen_line: l, gen_col: 0, src: Some((si, ol, 0, None)) });
         if t.flag() {
-            segs.push(Seg { gen_line: l, gen_col: 9, src: Some((0, ol, 4 + t.below(9) as u32, None)) });
+            segs.push(Seg { gen_line: l, gen_col: 9, src: Some((si, ol, 4 + t.below(9) as u32, None)) });
         }
         line_of.insert((l + 1).to_string(), json!(ol + 1));
+        source_of.insert((l + 1).to_string(), json!(if si == 1 { second.clone() } else { source.to_string() }));
     }
-    let m = Map { version: 3, sources: vec![source.to_string()], names: vec![], source_root: None, segs, has_sections: false };
+    let sources = if two { vec![source.to_string(), second] } else { vec![source.to_string()] };
+    let m = Map { version: 3, sources, names: vec![], source_root: None, segs, has_sections: false };
+    line_of.insert("$sourceOf".into(), Value::Object(source_of));
     (smap::encode_map(&m, &json!({"file": "x.js"})), line_of)
 }
 
@@ -140,7 +148,9 @@ impl Check for C11 {
                         let source = *t.pick(&["../src/a.ts", "a.ts", "sub/dir/c.ts"]);
                         let (m, line_of) = original_map(&mut t, p.lines, source);
                         code.push_str(&format!("//# sourceMappingURL=data:application/json;base64,{}\n", smap::encode_base64(m.to_string().as_bytes())));
-                        orig = json!({"source": source, "lineOf": line_of});
+                        let mut line_of = line_of;
+                        let source_of = line_of.remove("$sourceOf").unwrap_or(Value::Null);
+                        orig = json!({"source": source, "lineOf": line_of, "sourceOf": source_of});
                     }
                     if kind == 3 {
                         code = "function broken( {\n".into();
